@@ -126,7 +126,10 @@ def reader_eval(ctx, R, gc):
     def mk(kind, cls, a, x):
         return fd.Rec(cls, name=kind, arguments=dict(a), extra_arguments=dict(x))
     nt = fd.Rec("NotCommand", name="not", arguments={}, extra_arguments={})
-    other = mk("size", "SizeCommand", {"comparator": ":over", "limit": "10K"}, {})
+    other = mk("header", "HeaderCommand", {"match-type": ":contains", "header-names": '"Subject"', "key-list": '"x"'}, {})
+    other_plain = read([other])
+    if not (isinstance(other_plain, list) and len(other_plain) == 1):
+        return None
     n = 0
     for kind, cls, a, x in READER_SAMPLES:
         if prog.cls(cls) is None:
@@ -147,9 +150,9 @@ def reader_eval(ctx, R, gc):
         if not (isinstance(neg, list) and len(neg) == 1 and neg[0] == want):
             return ("bad", "`not %s` with stored arguments %r reads back as %r; the same test without `not` reads %r, so the negated one is %r"
                     % (kind, dict(a, **x), neg[0] if isinstance(neg, list) and len(neg) == 1 else neg, plain[0], want))
-        if not (isinstance(seq, list) and len(seq) == 2 and seq[0] == want and isinstance(seq[1], tuple) and seq[1][:1] == ("size",)
-                and not any(isinstance(v, str) and v.startswith(":not") for v in seq[1])):
-            return ("bad", "[not %s, size] reads back as %r: the negation of the first test reaches the second" % (kind, seq))
+        if not (isinstance(seq, list) and len(seq) == 2 and seq[0] == want and seq[1] == other_plain[0]):
+            return ("bad", "[not %s, header] reads back as %r; the second test alone reads %r: the negation of the first test reaches the second"
+                    % (kind, seq, other_plain[0]))
     return ("ok", n) if n >= 6 else None
 
 
